@@ -34,7 +34,7 @@ def _patches():
             out.append(("seeded/" + os.path.basename(d), prop, pf))
     sel = os.environ.get("VERIF_MUTANTS")
     if sel:
-        out = [x for x in out if sel in x[0]]
+        out = [x for x in out if any(s_ and s_ in x[0] for s_ in sel.split(","))]
     return out
 
 
